@@ -141,6 +141,18 @@ CHECKS = {
         technique="runtime before/after invariant monitor on hooked operation calls, replayed deviate tape",
         design="DESIGN.md section 2, C10",
     ),
+    "C11": dict(
+        script="checks/c11.py",
+        level="exploration",
+        text="Round trip: thousands of random events with hostile floating-point values are written exactly as bxdecay0-run writes them and read "
+             "back through event_reader; every number must agree to 15 significant digits. Window: small-scope exhaustive - every stream of up to "
+             "5 (quick) / 8 (thorough) events, every partition into up to 4 files incl. empty and whitespace-only ones, every (start, max), every "
+             "pattern of extra has_next_event() calls - checked against a list-slice model: delivered sequence, announce => load succeeds, empty "
+             "window => none announced, idempotence, loaded counter. Repeated in the ASan/UBSan build.",
+        note="Small-scope hypothesis for the window part; labels from the published names.",
+        technique="runtime reference-model monitor over recorded reader sessions (list-slice model), exhaustive small scope",
+        design="DESIGN.md section 2, C11",
+    ),
     "C16": dict(
         script="checks/c16.py",
         level="exploration",
